@@ -220,8 +220,10 @@ func newWorld(cfg worldCfg) *world {
 func (w *world) nowMs() int64 { return w.nt.Now().Sub(w.t0).Milliseconds() }
 
 // ev appends an event; the caller must NOT hold w.mu.
-func (w *world) ev(t string, c, k int, s string) int {
-	now := w.nowMs()
+func (w *world) ev(t string, c, k int, s string) int { return w.evAt(w.nowMs(), t, c, k, s) }
+
+// evAt records an event with a fake-clock reading taken by the caller.
+func (w *world) evAt(now int64, t string, c, k int, s string) int {
 	w.mu.Lock()
 	w.seq++
 	w.log = append(w.log, event{Seq: w.seq, T: t, C: c, K: k, S: s, Now: now})
@@ -483,8 +485,12 @@ func (f fakeClock) Timer(d time.Duration) clock.Timer {
 	if a := f.w.self(); a != nil && a.kind == "do" {
 		ci = a.call
 	}
+	// The clock is read BEFORE arming: the recorded arm time is a lower bound of
+	// the real one even if the goroutine is preempted (free-running schedules
+	// travel concurrently), so the spacing oracle can only under-report.
+	now := f.w.nowMs()
 	t := f.w.nt.Timer(d)
-	f.w.ev("timer.new", ci, int(d/time.Millisecond), "")
+	f.w.evAt(now, "timer.new", ci, int(d/time.Millisecond), "")
 	return &fakeTimer{Timer: t, w: f.w, call: ci}
 }
 
@@ -495,8 +501,9 @@ type fakeTimer struct {
 }
 
 func (t *fakeTimer) Reset(d time.Duration) {
+	now := t.w.nowMs()
 	t.Timer.Reset(d)
-	t.w.ev("timer.reset", t.call, int(d/time.Millisecond), "")
+	t.w.evAt(now, "timer.reset", t.call, int(d/time.Millisecond), "")
 }
 
 // --------------------------------------------------------------------------- stimuli
